@@ -285,7 +285,16 @@ def rule_d(ctx):
         am.let("valid", mk_t)
     warp = am.has(f.node, f"array_dst[tuple((voxels_dst[self.cache.valid_voxels, j] for j in range(dim)))] = {arr}[tuple((self.cache.voxels_src[self.cache.valid_voxels, j] for j in range(dim)))]")
     ctx.ob(R, f.qname, "the same mask selects destination voxels and source voxels in the assignment", warp is not None, "", f.node)
-    alloc = am.has(f.node, f"shape = (*self.coordinatesystem_dst.shape, *list({arr}.shape)[dim:])") is not None and am.has(f.node, f"array_dst = np.zeros(shape, dtype={arr}.dtype)") is not None
+    alloc = False
+    for shp in (f"(*self.coordinatesystem_dst.shape, *list({arr}.shape)[dim:])", f"(*self.coordinatesystem_dst.shape, *{arr}.shape[dim:])", f"(*self.coordinatesystem_dst.shape, *tuple({arr}.shape)[dim:])"):
+        am_a = AM(f)
+        am_a.bind.update(am.bind)
+        am_a.lets.update(am.lets)
+        am_a.let("shape", shp)
+        if am_a.has(f.node, f"array_dst = np.zeros(shape, dtype={arr}.dtype)") is not None:
+            alloc = True
+            am.bind.update(am_a.bind)
+            break
     n_alloc = len([s_ for s_ in body_nodes if isinstance(s_, ast.Assign) and isinstance(s_.targets[0], ast.Name) and s_.targets[0].id == (am.actual("array_dst") or "array_dst")])
     ctx.ob(R, f.qname, "output is zero-initialised (once, unconditionally) with destination spatial shape and source payload shape", alloc and n_alloc == 1, f"{n_alloc} definition(s) of the output array", f.node)
     cache = am.has(f.node, "self.cache = Cache(voxels_src=voxels_src, valid_voxels=valid)") if mk is not None else None
